@@ -109,6 +109,20 @@ func c16Cells(tier string) []Cell {
 		}
 	}
 
+	// Two Gets on two keys, each under its OWN context that asks for the default TTL explicitly
+	// (WithTTL(ctx, DefaultTTL, false)); the builders communicate a TTL the documented way (WithTTL(ctx, 30s, true)).
+	// Nothing is shared between the two callers, so nothing may race.
+	for front := 0; front < 3; front++ {
+		for _, init := range []string{"AA", "SS"} {
+			for _, su := range []bool{false, true} {
+				for _, sc := range []string{"o", "f"} {
+					f := FCfg{Front: front, SU: su, MS: true, Init: init, FailC: "00", Script: sc, Threads: [][]GOp{{{Key: 0}}, {{Key: 1}}}, Tags: []string{"ownzero"}}
+					cells = append(cells, Cell{ID: c16Cell{Kind: "failover", F: &f, C: -1}.id()})
+				}
+			}
+		}
+	}
+
 	return cells
 }
 
@@ -401,17 +415,30 @@ func c16FailoverBody(cfg FCfg) func() {
 			gctx = cache.WithTTL(gctx, time.Hour, false)
 		}
 
+		ownZero := len(cfg.Tags) > 0 && cfg.Tags[0] == "ownzero"
+
 		for i := range cfg.Threads {
 			k := 0
-			if shared {
+			if shared || ownZero {
 				k = i
 			}
 
 			vsched.SpawnThread("Get", func() {
 				key := append([]byte(nil), h.keys[k]...)
 				n := 0
+				gctx := gctx
+
+				if ownZero {
+					gctx = cache.WithTTL(context.Background(), cache.DefaultTTL, false)
+				}
+
 				_, _, _, _ = h.front.Get(gctx, key, func(ctx context.Context) (Tok, error) {
 					n++
+
+					if ownZero {
+						_ = cache.WithTTL(ctx, 30*time.Second, true)
+					}
+
 					vsched.Yield()
 
 					if cfg.Script == "f" {
@@ -541,7 +568,7 @@ func init() {
 		ID: "C16", Title: "The public API is free of data races",
 		Cells: c16Cells, Run: c16Run, Race: true,
 		Rule: "client programs: EVERY unordered pair (self-pairs included) of {Read, Write, Delete, ExpireAll, DeleteAll, Len, Walk (reading Key bytes/Value/ExpireAt), Dump, Restore, cleanup, cleanup+eviction, AddInvalidationLabels, InvalidateByLabels} " +
-			"on a shared instance x 3 backends x 3 eviction strategies; every pair of InvalidationIndex operations, also with a failing deleter (put-back path); two Gets on one key for Failover/FailoverOf x entry state x builder outcome x SyncUpdate x SyncRead incl. the background build; two Gets on two keys under one shared TTL-carrying caller context; Invalidate || Invalidate; " +
+			"on a shared instance x 3 backends x 3 eviction strategies; every pair of InvalidationIndex operations, also with a failing deleter (put-back path); two Gets on one key for Failover/FailoverOf x entry state x builder outcome x SyncUpdate x SyncRead incl. the background build; two Gets on two keys under one shared TTL-carrying caller context, and each under its own explicit-default-TTL context with builders that communicate a TTL; Invalidate || Invalidate; " +
 			"thorough adds all triples of the operations that touch entries in place. For each program ALL interleavings of its synchronisation operations within the bound are executed in a -race build whose scheduler hand-offs are invisible to the detector; " +
 			"the race detector is the per-execution oracle; a violation's signature is the unordered pair of top bool64/cache frames of the two accesses",
 		Assumptions: []string{
